@@ -200,7 +200,7 @@ func (en *Engine) verifyUnit(u *UnitInfo) *UnitResult {
 	var resVars []*types.Var
 	for i := 0; i < u.Sig.Results().Len(); i++ {
 		rv := u.Sig.Results().At(i)
-		if rv.Name() != "" && rv.Name() != "_" {
+		if rv.Name() != "" {
 			st.vars[rv] = x.d.zeroOf(rv.Type())
 			resVars = append(resVars, rv)
 		}
@@ -424,7 +424,7 @@ func (x *Exec) wfAstField(st *State, key, ref string, val Term) {
 // wfAstFieldPlain: the same facts over the values read (no rigid field functions: pass 2 rewrites some fields).
 func (x *Exec) wfAstFieldPlain(st *State, key, ref string, val Term) {
 	switch key {
-	case "ast.IfStmt.Body", "ast.ForStmt.Body", "ast.RangeStmt.Body":
+	case "ast.IfStmt.Body", "ast.ForStmt.Body", "ast.RangeStmt.Body", "ast.FuncLit.Body":
 		st.assume(sNot(sEq(val.S, "nilRef")))
 		x.prov[val.S] = "stmtblock"
 	case "ast.SwitchStmt.Body", "ast.TypeSwitchStmt.Body":
